@@ -369,10 +369,18 @@ CondOperand(g) ==        \* a conditional expression where Python needs it paren
   \/ g.k = "cond" /\ (g.c[1].k = "cond" \/ g.c[2].k = "cond")
 PrimaryBase(g) ==        \* attribute / subscript / call on an operator expression or a numeric literal
   g.k \in {"attr", "sub", "call"} /\ (IsOperator(g.c[1]) \/ LexNode(g))
-NegPow(g) == g.k = "bin" /\ g.v[1] = "**" /\ FoldedNeg(g.c[1])
+\* (second disjuncts: what ConstantFolding may turn into the catalogued shape; such trees are Foldish, the model makes no
+\*  prediction for them, the tag only names the root cause)
+NegPow(g) == g.k = "bin" /\ g.v[1] = "**" /\ (FoldedNeg(g.c[1]) \/ (g.c[1].k \in {"un", "bin"} /\ Closed(g.c[1])))
 Tuple1(g) == g.k = "tuple" /\ Len(g.c) = 1
 Chain(g) == g.k = "cmp" /\ Len(g.v) > 1
-InList(g) == IsMember(g) \/ (NotMember(g) /\ IsMember(g.c[1]))
+RECURSIVE DispLike(_)
+DispLike(x) == \/ x.k \in {"tuple", "list", "set"} /\ x.c # <<>>
+               \/ x.k = "bool" /\ (DispLike(x.c[1]) \/ DispLike(x.c[2]))
+               \/ x.k = "cond" /\ (DispLike(x.c[1]) \/ DispLike(x.c[3]))
+MemberF(g) == g.k = "cmp" /\ Len(g.v) = 1 /\ g.v[1] \in {"in", "not in"} /\ g.c[2].k \in {"bool", "cond"}
+              /\ DispLike(g.c[2]) /\ FoldNode(g.c[2])
+InList(g) == IsMember(g) \/ (NotMember(g) /\ IsMember(g.c[1])) \/ MemberF(g) \/ (NotMember(g) /\ MemberF(g.c[1]))
 \* does some node of e satisfy the predicate named t ?
 Pred(g, t) == CASE t = "tuple1" -> Tuple1(g) [] t = "chain" -> Chain(g) [] t = "assoc" -> SamePrecTight(g)
                 [] t = "cond" -> CondOperand(g) [] t = "primary" -> PrimaryBase(g) [] t = "negpow" -> NegPow(g) [] t = "inlist" -> InList(g)
@@ -427,7 +435,11 @@ BoolTyped(e) == e.k = "cmp" \/ (e.k = "un" /\ e.v[1] = "not")
 \* Left out of the family (by-catch of other properties, see notes): a tuple display of C-typed values (literals, comparisons)
 \* is a "ctuple" for the compiler; its truth test is mis-compiled (wrong constant / C that does not compile), and `is` between
 \* C-typed operands compares values
-CTyped(e) == e.k = "num" \/ FoldedNeg(e) \/ BoolTyped(e)
+RECURSIVE CTyped(_)
+CTyped(e) == \/ e.k = "num" \/ BoolTyped(e)
+             \/ e.k = "un" /\ CTyped(e.c[1])
+             \/ e.k \in {"bin", "bool"} /\ CTyped(e.c[1]) /\ CTyped(e.c[2])
+             \/ e.k = "cond" /\ CTyped(e.c[1]) /\ CTyped(e.c[3])
 CTuple(e) == e.k = "tuple" /\ e.c # <<>> /\ \A i \in 1..Len(e.c) : CTyped(e.c[i])
 \* operands that cannot raise when the definition is evaluated (names are symbolic objects that absorb every operator)
 Opnd(e) == e.k \notin {"atom", "opq", "tuple", "list", "set", "dict"}
